@@ -143,6 +143,12 @@ func installHook() {
 			s.Yield(site)
 		}
 	}
+	simrt.SelHook = func(site string, n int) int {
+		if s := curSim; s != nil {
+			return s.Sel(site, n)
+		}
+		return 0
+	}
 }
 
 // Bubble runs one engine-A scenario: setup draws the scenario on the root
